@@ -10,3 +10,15 @@ Definition chk_file (c : option (list (N * doc)) * option (list (N * doc) * list
 Definition chk_ro (c : option (list (N * doc)) * (list (N * doc) * list N) * list N * (list (N * doc) * bool)) : bool :=
   let '(f0, (dump, dirty), vbs, (ld, ex)) := c in
   let '(ml, mex) := file_load (ro_save f0 dump dirty) vbs in docs_eqb ml ld && Bool.eqb mex ex.
+
+(* real cbMetadata against the simulated node: documents already stored, save (dump, dirty), load of vbs:
+   (documents, exist) and the keys that were written, for group g *)
+From Verif Require Import Model.Keys.
+Definition chk_cb (c : bytes * list (N * doc) * (list (N * doc) * list N) * list N * (list (N * doc) * bool) * list bytes) : bool :=
+  let '(g, st0, (dump, dirty), vbs, (ld, ex), keys) := c in
+  let st1 := cb_save (assoc_doc st0) dump dirty in
+  let '(ml, mex) := cb_load st1 vbs in
+  docs_eqb ml ld && Bool.eqb mex ex &&
+  list_eqb bytes_eqb
+    (flat_map (fun vb => match lookup_doc dump vb, checkpoint_id g vb with Some _, Some k => [k] | _, _ => [] end) dirty) keys &&
+  forallb is_meta keys.
